@@ -1,6 +1,7 @@
 //! `D` — derive (FORMAT.md): `D <decl>` runs the real macro implementation as a library on the declaration and prints
 //! the tables read back from the generated tokens (derivelib); `D probe <n> <decl>` probes the n-th enum of
 //! derive_specs.rs — compiled by rustc from the real macros — through the public trait functions.
+#[cfg(feature = "compiled_specs")]
 use crate::derive_specs as ds;
 use crate::util::catch;
 use ebml_iterable::specs::{EbmlSpecification, EbmlTag, Master, PathPart, TagDataType};
@@ -15,6 +16,9 @@ pub fn run(t: &[&str]) -> String {
             let d = decl.to_string();
             catch(move || derivelib::run_table(&d))
         }
+        #[cfg(not(feature = "compiled_specs"))]
+        ["probe", _n, _decl] => "NOCOMPILED".to_string(),
+        #[cfg(feature = "compiled_specs")]
         ["probe", n, decl] => {
             let ids = match derivelib::parse_decl(decl) {
                 Ok(d) => derivelib::decl_ids(&d),
